@@ -123,6 +123,8 @@ def master_of(wspec):
         return indep_seed(m, unstr(parts[2])), parts[4] == "1", m, unstr(parts[2])
     if parts[0] == "seedb":
         return unhex(parts[1]), parts[2] == "1", None, None
+    if parts[0] == "seedh":         # the seed as hex TEXT (bytes.fromhex's language: blanks between byte pairs allowed)
+        return bytes.fromhex(unstr(parts[1])), parts[2] == "1", None, None
     if parts[0] == "xkey":          # a depth-0 extended PRIVATE key: the master key is given directly
         pl = b58check_dec(unstr(parts[1]))
         ver = int.from_bytes(pl[:4], "big")
@@ -422,8 +424,25 @@ def literal_ops(lit):
 LITERAL_BUDGET = 24
 
 
+def _hex_text_wallets(rng, tier):
+    """wallets from hex TEXT with the white space bytes.fromhex tolerates (seed and entropy routes): the records are
+    those of the bytes"""
+    for _ in range(1 if tier == "quick" else 10):
+        sd = bytes(rng.getrandbits(8) for _ in range(rng.choice([16, 32, 64]))).hex()
+        e = bytes(rng.getrandbits(8) for _ in range(rng.choice([16, 32]))).hex()
+        vs = common.hex_blank_variants(rng, sd, many=(tier == "thorough"))
+        ve = common.hex_blank_variants(rng, e, many=(tier == "thorough"))
+        if tier == "quick":
+            vs, ve = rng.sample(vs, 2), rng.sample(ve, 1)
+        for v_ in vs:
+            yield "generate seedh:%s:%s %d 0 1" % (sx(v_), rng.choice("01"), rng.choice([0, 3])), "seed-hex-with-blanks"
+        for v_ in ve:
+            yield "generate ent:%s:-:-:%s 0 0 1" % (sx(v_), rng.choice("01")), "entropy-hex-with-blanks"
+
+
 def cases(rng, tier):
     from . import extra
     yield from _cases_core(rng, tier)
+    yield from _hex_text_wallets(rng, tier)
     yield from _seq_cases(rng, tier)
     yield from extra.cases_for('papertext', rng, tier)
